@@ -18,6 +18,8 @@ OUTCOMES: Dict[str, Dict[str, Any]] = {
     "savefail": {"save_fails": True},
     "sync-raise": {"flavour": "sync", "outcome": "raise"},
     "timeout": {"outcome": "never", "timeout": 0.2},
+    "raise-base": {"outcome": "raise", "exc": "CancelledError"},
+    "sync-systemexit": {"flavour": "sync", "outcome": "raise", "exc": "SystemExit"},
 }
 
 META = {
@@ -26,12 +28,13 @@ META = {
     "rule": (
         "worker side: every stack of 0..k recording middlewares, each overriding any subset of {pre_execute, on_error, "
         "post_execute, post_save}, sync or async, message-replacing or not, x outcome (return, raise, no-result, backend "
-        "failure, sync raise, timeout); the single message goes through the real listen()/callback() and its projected "
+        "failure, sync raise, timeout, CancelledError / SystemExit raised by the task); hooks also as plain functions returning a Task; the single message goes through the real listen()/callback() and its projected "
         "event log must equal the reference sequence PRE(m1..mk) START END [ONERR(m1..mk) iff raised] POST(m1..mk) "
         "[SAVE PSAVE(m1..mk) iff a result was stored], each overridden hook exactly once, non-overridden hooks never, each "
         "pre_execute seeing the replacement made by its predecessors. Concurrency: 2 messages x 2 middlewares with every "
         "hook completion a separate event, all orderings (level 0 and 1), order checked per message. Client side: every "
-        "stack of 0..3 middlewares over subsets of {pre_send, post_send} x sync/async x replacing x kick ok/raising: "
+        "stack of 0..3 middlewares over subsets of {pre_send, post_send} x sync/async x replacing x kick ok/raising x kicker "
+        "created before/after the middlewares were registered: "
         "pre_send in order each seeing its predecessor's message, kick receives the last message, post_send iff kick "
         "succeeded, failed kick surfaces as SendTaskError. distinct_nontrivial = distinct reference sequences exercised."
     ),
@@ -62,7 +65,7 @@ class C10World(RecvWorld):
 
         def add(hook: str, mi: int, mk: Tuple[str, ...]) -> None:
             seq.append((EV[hook], mi, mk))
-            if mws[mi]["hooks"][hook] == "gated":
+            if mws[mi]["hooks"][hook] in ("gated", "future"):
                 seq.append((EV[hook] + "_E", mi))
 
         for mi, mw in enumerate(mws):
@@ -141,9 +144,12 @@ def worker_scenarios(tier: str) -> List[Dict[str, Any]]:
     out = []
     subs = _subsets(W_HOOKS)
     variants = [(s, mode, rep) for s in subs for mode in ("sync", "async") for rep in ((False, True) if "pre_execute" in s else (False,))]
+    fut = [(s, "future", "pre_execute" in s) for s in subs if s]
     stacks: List[List[Dict[str, Any]]] = [[]]
-    stacks += [[_mw(*v)] for v in variants]
+    stacks += [[_mw(*v)] for v in variants + fut]
     stacks += [[_mw(*v1), _mw(*v2)] for v1 in variants for v2 in variants]
+    partner = (tuple(W_HOOKS), "async", True)
+    stacks += [[_mw(*v), _mw(*partner)] for v in fut] + [[_mw(*partner), _mw(*v)] for v in fut]
     if tier == "quick":
         few = [(tuple(W_HOOKS), "sync", True), (("pre_execute", "post_save"), "async", True), (("on_error",), "sync", False), ((), "sync", False)]
         stacks += [[_mw(*a), _mw(*b), _mw(*c)] for a in few for b in few for c in few]
@@ -154,7 +160,7 @@ def worker_scenarios(tier: str) -> List[Dict[str, Any]]:
         outcomes = list(OUTCOMES)
     for st in stacks:
         for o in outcomes:
-            if len(st) >= 2 and o in ("sync-raise", "timeout") and tier == "quick":
+            if len(st) >= 2 and o in ("sync-raise", "timeout", "sync-systemexit") and tier == "quick":
                 continue
             out.append({"A": 2, "P": 0, "N": None, "stream": "finite", "stop": False, "level": 0,
                         "msgs": [dict(OUTCOMES[o], body="immediate" if OUTCOMES[o].get("outcome") != "never" else "gated")],
@@ -177,7 +183,7 @@ def client_cases() -> List[Tuple[Any, ...]]:
     stacks: List[Tuple[Any, ...]] = [()]
     for k in (1, 2, 3):
         stacks += list(itertools.product(variants, repeat=k))
-    return [(st, kick) for st in stacks for kick in ("ok", "raise")]
+    return [(st, kick, early) for st in stacks for kick in ("ok", "raise") for early in (False, True) if st or not early]
 
 
 def run_client(cases: List[Tuple[Any, ...]], acc: Acc) -> None:
@@ -186,7 +192,7 @@ def run_client(cases: List[Tuple[Any, ...]], acc: Acc) -> None:
     from taskiq.exceptions import SendTaskError
     from mc.vloop import run_sync
 
-    for st, kick in cases:
+    for st, kick, early_kicker in cases:
         log: List[Any] = []
 
         class B(AsyncBroker):
@@ -200,6 +206,14 @@ def run_client(cases: List[Tuple[Any, ...]], acc: Acc) -> None:
                 yield b""
 
         b = B()
+
+        async def f(x, y):  # noqa: ANN001
+            return None
+
+        f.__module__ = "mc.props.c10"
+        task = b.register_task(f, task_name="c10:f")
+        # a long-lived kicker created before the middlewares are registered must still run them
+        kicker = task.kicker().with_task_id("tid-1") if early_kicker else None
         ref: List[Any] = []
         marks: List[str] = []
         for mi, (hooks, mode, rep) in enumerate(st):
@@ -237,21 +251,16 @@ def run_client(cases: List[Tuple[Any, ...]], acc: Acc) -> None:
                 if "post_send" in hooks:
                     ref.append(("post_send", mi, allm))
 
-        async def f(x, y):  # noqa: ANN001
-            return None
-
-        f.__module__ = "mc.props.c10"
-        task = b.register_task(f, task_name="c10:f")
         err = None
         res = None
         try:
-            res = run_sync(task.kicker().with_task_id("tid-1").kiq(1, "a"))
+            res = run_sync((kicker or task.kicker().with_task_id("tid-1")).kiq(1, "a"))
         except BaseException as exc:
             err = exc
         acc.evaluations += 1
         acc.count("client_cases")
         acc.outcome(("client", tuple(r[:2] for r in ref), kick))
-        case = {"stack": [list(map(str, v)) for v in st], "kick": kick}
+        case = {"stack": [list(map(str, v)) for v in st], "kick": kick, "kicker_created_before_middlewares": early_kicker}
         if log != ref:
             acc.violation("client-sequence", f"client hook sequence {log} != reference {ref} for {case}", {"client": case})
         if kick == "raise":
@@ -300,7 +309,7 @@ def replay(obj: Dict[str, Any]) -> int:
         acc = Acc()
         case = obj["client"]
         st = tuple((tuple(eval(v[0])) if isinstance(v[0], str) else tuple(v[0]), v[1], v[2] in (True, "True")) for v in case["stack"])
-        run_client([(st, case["kick"])], acc)
+        run_client([(st, case["kick"], bool(case.get("kicker_created_before_middlewares")))], acc)
         for k, v in acc.violations.items():
             print(k, v["message"])
         return 1 if acc.violations else 0
